@@ -289,7 +289,14 @@ func solveGroups(groups []*Group, tainted []*Obligation, workdir string, timeout
 			}
 		}()
 	}
-	for _, o := range pending {
+	// when very many obligations are left open (a heavily changed or broken tree) only the first ones get the
+	// full portfolio; the rest keep the session's verdict -- the run reports violations either way and stays bounded
+	const maxRetried = 160
+	for k, o := range pending {
+		if k >= maxRetried {
+			o.Status, o.Solver, o.Output = "unknown", "z3-new", "left open by the incremental session; not retried standalone (more than 160 open obligations in this run)"
+			continue
+		}
 		jobs2 <- o
 	}
 	close(jobs2)
